@@ -120,7 +120,7 @@ for _u, _fns in (("f64x", ["f64::ExtensibleField<2>::{mul,square,mul_base,froben
     verus_unit(_u, _u, ["C08"], _fns)
 
 verus_unit("f128v", "f128", ["C07"], ["f128::inv (partial correctness: canonical result, x * inv(x) == 1 mod p for x != 0, inv(0) == 0; termination not proved)", "f128::add_192x192", "f128::mul", "f128::add", "f128::sub", "f128::mul_reduce", "f128::mul_128x64", "f128::mul_by_modulus", "f128::sub_modulus", "f128::sub_192x192", "f128::add64_with_carry"])
-verus_unit("f128e", "f128e", ["C07"], ["f128::BaseElement::new", "f128::Add/Sub/Mul/Div/Neg", "f128::FieldElement::inv", "traits::FieldElement::double / square / exp / exp_vartime (u128 instantiation for the 128-bit field)"])
+verus_unit("f128e", "f128e", ["C07"], ["f128::BaseElement::new", "f128::Add/Sub/Mul/Div/Neg", "f128::FieldElement::inv", "traits::FieldElement::double / square / exp / exp_vartime (u128 instantiation for the 128-bit field)", "traits::StarkField::get_root_of_unity (128-bit instantiation: order exactly 2^n for every admissible n)"])
 verus_unit("fconsts", "fconsts", ["C07"], ["f64/f62/f128: MODULUS, TWO_ADICITY, TWO_ADIC_ROOT_OF_UNITY, GENERATOR"])
 verus_unit("extinv", "extinv", ["C08"], ["QuadExtension::inv", "CubeExtension::inv"])
 
